@@ -15,7 +15,8 @@ explicit key, issuer correspondence and permission containment, and verify_signa
 handler (cert-verify); the ECDSA primitive answers other than False only with the result of the library's
 VerifyingKey.verify over the caller's data, r/s and x/y with SHA-256 (backend); the security switches the receive path
 reads keep their configured value: MIB is frozen and Router.mib is bound at construction, a later binding must be a copy
-that carries itsGnSecurity and itsGnSnDecapResultHandling over (switch-stable).
+that carries itsGnSecurity and itsGnSnDecapResultHandling over (switch-stable); the security coder hands its parameter
+unchanged to the ASN.1 library and encode / decode pairs name one type (coder).
 Does not decide cryptographic strength, OER parser behaviour under bit flips / trailing bytes (value level), nor
 histories of forged chains beyond trust-store closure (C09).
 """
@@ -274,9 +275,56 @@ def run(ctx):
     library_returns(ctx)
     switch_stable(ctx)
     ctx.floor("C03.switch-stable", 2)
+    coder_passthrough(ctx)
     # ---- (6),(7)
     SU.cert_verify_conjuncts(ctx, "C03.cert-verify")
     backend_primitive(ctx, "C03.backend")
+
+
+def coder_passthrough(ctx) -> None:
+    """The security coder hands exactly what it is given to the ASN.1 library: each encode_* / decode_* method returns
+    `self.asn_coder.<encode|decode>(<type name>, <its own parameter>)` with the parameter untouched (no strip / slice / copy
+    with changes), and an encode / decode pair of one structure names the same type.  A decoder that "normalises" the received
+    octets first (e.g. strips trailing zero octets) cuts into signatures that end in 0x00: authentic messages are rejected."""
+    P = ctx.prog
+    sc = P.cls("security.security_coder.SecurityCoder")
+    names = {}
+    n = 0
+    for nm, fi in sorted(sc.methods.items()):
+        if nm.startswith("__") or not (nm.startswith("encode") or nm.startswith("decode")):
+            continue
+        n += 1
+        fl = ctx.flows.get(fi)
+        rets = [(s_, st) for k, s_, st in fl.exits if k == "return"]
+        ok, why, tname = False, "no single return of a library call", None
+        par = fi.params[1] if len(fi.params) == 2 else None
+        if len(rets) == 1 and par is not None and isinstance(rets[0][0].value, ast.Call):
+            c = rets[0][0].value
+            direction = "encode" if nm.startswith("encode") else "decode"
+            if isinstance(c.func, ast.Attribute) and c.func.attr == direction and sem.same(fl.expand(c.func.value, rets[0][1]), "self.asn_coder") \
+                    and len(c.args) == 2 and not c.keywords:
+                tname = P.try_fold(fi.module, c.args[0])
+                arg = fl.expand(c.args[1], rets[0][1])
+                rebound = [d for d in fl.reaching(par, rets[0][1]) if d.kind != "param"]
+                if isinstance(arg, ast.Name) and arg.id == par and not rebound and isinstance(tname, str):
+                    ok = True
+                else:
+                    why = f"the library is given `{sem.cx(arg)[:60]}`" + (f" (`{par}` is rebound first)" if rebound else "") + f", not the parameter `{par}` itself"
+            else:
+                why = f"returns `{sem.cx(c)[:60]}`"
+        ctx.ob("C03.coder", fi.short(), "passthrough", ok,
+               f"hands its parameter unchanged to asn_coder.{'encode' if nm.startswith('encode') else 'decode'}('{tname}', ...)" if ok else
+               f"{nm} does not hand its parameter unchanged to the ASN.1 library: {why} - octets of an authentic message (e.g. a signature "
+               "ending in 0x00) are altered before decoding / after encoding", fi.loc)
+        if ok:
+            names.setdefault(nm.split("_", 1)[1], {})[nm.split("_", 1)[0]] = tname
+    for base, d in sorted(names.items()):
+        if len(d) == 2:
+            ctx.ob("C03.coder", sc.qual[10:], f"pair:{base}", d["encode"] == d["decode"],
+                   f"encode_{base} and decode_{base} use the same ASN.1 type ({d['encode']} / {d['decode']})",
+                   f"{sc.module.rel}:{sc.node.lineno}")
+    if n < 4:
+        raise AnalysisError(f"C03: only {n} encode/decode methods found on SecurityCoder (confirmed: 6)")
 
 
 SWITCHES = ("itsGnSecurity", "itsGnSnDecapResultHandling")
